@@ -31,6 +31,8 @@ structure Cfg where
   storeDeep : Bool      -- saveRespToCache stores copyNoOpt(r): new Question slice, dns.Copy of every RR
   hitDeep : Bool        -- getRespFromCache, fresh entry: v.resp.Copy()
   lazyHitDeep : Bool    -- getRespFromCache, stale entry served by the lazy cache: v.resp.Copy()
+  missPrivate : Bool    -- Exec on a miss: the query walks the rest of the chain itself (next.ExecNext with its own qCtx) and keeps
+                        -- what that produced; it is never handed (a struct copy of) another in-flight query's response
   deriving DecidableEq, Repr
 
 structure Entry where
@@ -95,10 +97,49 @@ def St.run (cfg : Cfg) : St → List Op → St × List Out
     let (s2, os) := St.run cfg s1 ops
     (s2, o :: os)
 
-def allDeep : Cfg := ⟨true, true, true⟩
+def allDeep : Cfg := ⟨true, true, true, true⟩
 
 structure St.Inv (s : St) : Prop where
   cacheOk : ∀ e ∈ s.cache, s.heap.read e.locs = e.snap ∧ (∀ l ∈ e.locs, l < s.heap.next) ∧ (∀ c ∈ s.callers, ∀ l ∈ e.locs, l ∉ c)
   callersOk : ∀ c ∈ s.callers, ∀ l ∈ c, l < s.heap.next
+
+/-! ## queries that miss, and what a caller sees through a handle it holds -/
+
+inductive XOp where
+  | base (op : Op)
+  /-- a query for `k` misses and goes through `Exec`; its upstream would answer `vals`; `inflight` is the handle of the
+  response of another query for the same key that is still on its way -/
+  | miss (k qid : Nat) (vals : List Nat) (inflight : Option Nat)
+  | look (c : Nat)                     -- the holder of handle c reads its message
+  deriving Repr
+
+structure XOut where
+  out : Out
+  seen : Option (List Nat)
+  deriving Repr
+
+def St.xstep (cfg : Cfg) (s : St) : XOp → St × XOut
+  | .base op => ((s.step cfg op).1, ⟨(s.step cfg op).2, none⟩)
+  | .miss k qid vals inflight =>
+    match (if cfg.missPrivate then none else inflight.bind (fun c => s.callers[c]?)) with
+    | none =>
+      -- the query's own exchange produced its response; Exec stores it
+      let s1 := (s.step cfg (.produce vals)).1
+      ((s1.step cfg (.store k s.callers.length)).1, ⟨⟨some (qid, (s.heap.alloc vals).1.read (s.heap.alloc vals).2), some vals⟩, none⟩)
+    | some ls =>
+      -- the query is handed a struct copy of the in-flight response: the same locations
+      let s1 : St := { s with callers := s.callers ++ [ls] }
+      ((s1.step cfg (.store k s.callers.length)).1, ⟨⟨some (qid, s.heap.read ls), some vals⟩, none⟩)
+  | .look c => (s, ⟨⟨none, none⟩, (s.callers[c]?).map s.heap.read⟩)
+
+def St.xrun (cfg : Cfg) : St → List XOp → St × List XOut
+  | s, [] => (s, [])
+  | s, op :: ops =>
+    let (s1, o) := s.xstep cfg op
+    let (s2, os) := St.xrun cfg s1 ops
+    (s2, o :: os)
+
+/-- handles held outside the cache are pairwise disjoint -/
+def St.Disj (s : St) : Prop := s.callers.Pairwise (fun a b => ∀ l ∈ a, l ∉ b)
 
 end Model.C10
